@@ -163,3 +163,308 @@ theorem release_tree {base L h} {es : List Nat} {bi bd : Nat} {X : List Nat}
     · intro e; subst e; exact hbd h1
 
 end PPLV.Alloc
+
+namespace PPLV.Alloc
+
+/-- General form of "no leak" for an outcome computed from a tracked heap. -/
+structure Clean (L : List Nat) (o : Outcome) : Prop where
+  live : o.live = L
+  bad : o.bad = 0
+
+theorem Clean.of {base L h} (t : Tracks base L [] h) (thr v : Bool) : Clean L (Outcome.ofHeap thr v h) :=
+  ⟨t.done, t.bad⟩
+
+/-- `copy_data_from` on a freshly sized tree: on a throw everything the tree owned is released and
+the tree is the (valid) empty tree; otherwise the tree owns the arrays and the copied elements. -/
+theorem copyDataFrom_spec {base L X h bi bd r x thr tr h'}
+    (t : Tracks base L (bd :: bi :: X) h) (hbi : bi ∉ X) (hbd : bd ∉ X) (hne : bi ≠ bd)
+    (e : copyDataFrom (Tree.mk (some bi) (some bd) r [] 0 (some bi)) x h = (thr, tr, h')) :
+    (thr = true ∧ tr = Tree.empty ∧ Tracks base L X h') ∨
+    (thr = false ∧ ∃ es, tr = Tree.mk (some bi) (some bd) r es es.length (some bi) ∧
+        Tracks base L (es ++ bd :: bi :: X) h' ∧ es.Nodup ∧ (∀ b ∈ es, b ≠ bi ∧ b ≠ bd ∧ b ∉ X)) := by
+  unfold copyDataFrom at e
+  split at e
+  · simp at e; obtain ⟨e1, e2, e3⟩ := e; subst e1 e2 e3
+    exact Or.inr ⟨rfl, [], rfl, by simpa using t, List.nodup_nil, by simp⟩
+  · split at e
+    · rename_i es h1 hl
+      obtain ⟨new, e1, t1, nd, dis⟩ := copyLoop_spec x [] _ h false es h1 t hl
+      simp at e1; subst e1
+      simp at e; obtain ⟨e1, e2, e3⟩ := e; subst e1 e2 e3
+      refine Or.inr ⟨rfl, es, rfl, t1, nd, ?_⟩
+      intro b hb
+      have := dis b hb
+      simp only [List.mem_cons, not_or] at this
+      exact ⟨this.2.1, this.1, this.2.2⟩
+    · rename_i es h1 hl
+      obtain ⟨new, e1, t1, nd, dis⟩ := copyLoop_spec x [] _ h true es h1 t hl
+      simp at e1; subst e1
+      simp at e; obtain ⟨e1, e2, e3⟩ := e; subst e1 e2 e3
+      refine Or.inl ⟨rfl, rfl, ?_⟩
+      apply release_tree t1 nd _ hbi hbd hne
+      intro b hb
+      have := dis b hb
+      simp only [List.mem_cons, not_or] at this
+      exact ⟨this.2.1, this.1, this.2.2⟩
+
+theorem cotDestroy_full {base L X h bi bd r es sz c}
+    (t : Tracks base L (es ++ bd :: bi :: X) h) (nd : es.Nodup)
+    (hes : ∀ b ∈ es, b ≠ bi ∧ b ≠ bd ∧ b ∉ X) (hbi : bi ∉ X) (hbd : bd ∉ X) (hne : bi ≠ bd)
+    (hr : r ≠ 0) :
+    Tracks base L X (cotDestroy (Tree.mk (some bi) (some bd) r es sz c) h) := by
+  unfold cotDestroy
+  simp only [hr, if_false]
+  exact release_tree t nd hes hbi hbd hne
+
+theorem reservedOf_ne_zero (n : Nat) : reservedOf n ≠ 0 := by
+  unfold reservedOf
+  have : 2 ^ (Nat.log2 n + 1) ≥ 2 := by
+    have h1 : 2 ^ (Nat.log2 n + 1) = 2 * 2 ^ Nat.log2 n := by rw [Nat.pow_succ]; omega
+    have h2 : 2 ^ Nat.log2 n ≥ 1 := Nat.one_le_two_pow
+    omega
+  omega
+
+/-- Copy constructor of `CO_Tree` from any tracked heap. -/
+theorem cotreeCopy_clean {base L h} (x : List Bool) (t : Tracks base L [] h) :
+    Clean L (cotreeCopy x h) ∧ (cotreeCopy x h).valid = true := by
+  unfold cotreeCopy
+  split
+  · rename_i tr h1 hi
+    rcases cotInit_spec t hi with ⟨_, t1, _⟩ | ⟨hf, _⟩ | ⟨hf, _⟩
+    · exact ⟨Clean.of t1 _ _, rfl⟩
+    · cases hf
+    · cases hf
+  · rename_i tr h1 hi
+    rcases cotInit_spec t hi with ⟨hf, _⟩ | ⟨_, hn, htr, hh⟩ | ⟨_, hn, bi, bd, htr, t1, hbi, hbd, hne⟩
+    · cases hf
+    · subst htr hh
+      have hx : x = [] := List.length_eq_zero_iff.mp hn
+      subst hx
+      simp [copyDataFrom, cotDestroy, Tree.empty, Tree.ok, Outcome.ofHeap]
+      exact ⟨t.done, t.bad⟩
+    · subst htr
+      split
+      · rename_i tr2 h2 hc
+        rcases copyDataFrom_spec t1 hbi hbd hne hc with ⟨_, _, t2⟩ | ⟨hf, _⟩
+        · exact ⟨Clean.of t2 _ _, rfl⟩
+        · cases hf
+      · rename_i tr2 h2 hc
+        rcases copyDataFrom_spec t1 hbi hbd hne hc with ⟨hf, _⟩ | ⟨_, es, htr2, t2, nd, hes⟩
+        · cases hf
+        · subst htr2
+          have t3 := cotDestroy_full (r := reservedOf x.length) (sz := es.length) (c := some bi) t2 nd hes hbi hbd hne (reservedOf_ne_zero _)
+          refine ⟨Clean.of t3 _ _, ?_⟩
+          simp [Outcome.ofHeap, Tree.ok, reservedOf_ne_zero]
+
+end PPLV.Alloc
+
+namespace PPLV.Alloc
+
+theorem Tracks.take {base L X h} (t : Tracks base L X h) :
+    Tracks base L (h.take.1 :: X) h.take.2 ∧ h.take.1 ∉ X := by
+  have hle : base ≤ h.next := t.le
+  have hnotin : h.next ∉ X := by intro hm; have := (t.fresh _ hm).2; omega
+  refine ⟨⟨?_, ?_, ?_, ?_, t.bad⟩, hnotin⟩
+  · show (h.next :: h.live).filter _ = L
+    rw [List.filter_cons]
+    have : ¬ h.next < base := by omega
+    simp [this, t.old]
+  · intro c hc
+    show c ∈ h.next :: h.live ↔ c ∈ h.next :: X
+    simp only [List.mem_cons]; rw [t.new c hc]
+  · intro c hc
+    show base ≤ c ∧ c < h.next + 1
+    rcases List.mem_cons.mp hc with h1 | h1
+    · have : c = h.next := h1
+      omega
+    · have := t.fresh c h1; omega
+  · show base ≤ h.next + 1; omega
+
+theorem takeN_spec {base L} : ∀ (n : Nat) (acc X : List Nat) (h : Heap),
+    Tracks base L X h →
+    ∃ new, (takeN n acc h).1 = acc ++ new ∧ Tracks base L (new ++ X) (takeN n acc h).2 ∧ new.Nodup
+      ∧ (∀ b ∈ new, b ∉ X) ∧ new.length = n := by
+  intro n
+  induction n with
+  | zero => intro acc X h t; exact ⟨[], by simp [takeN], by simpa [takeN] using t, List.nodup_nil, by simp, rfl⟩
+  | succ n ih =>
+    intro acc X h t
+    obtain ⟨t1, hb⟩ := t.take
+    obtain ⟨new, e1, t2, nd, dis, len⟩ := ih (acc ++ [h.take.1]) (h.take.1 :: X) h.take.2 t1
+    refine ⟨h.take.1 :: new, by simp [takeN, e1], ?_, ?_, ?_, by simp [len]⟩
+    · simp only [takeN]
+      refine t2.congr ?_
+      intro c; simp only [List.mem_append, List.mem_cons]
+      constructor
+      · rintro (h2 | h2 | h2)
+        · exact Or.inl (Or.inr h2)
+        · exact Or.inl (Or.inl h2)
+        · exact Or.inr h2
+      · rintro ((h2 | h2) | h2)
+        · exact Or.inr (Or.inl h2)
+        · exact Or.inl h2
+        · exact Or.inr (Or.inr h2)
+    · refine List.nodup_cons.mpr ⟨?_, nd⟩
+      intro hm; exact dis _ hm (List.mem_cons_self ..)
+    · intro c hc
+      rcases List.mem_cons.mp hc with h2 | h2
+      · subst h2; exact hb
+      · intro hx; exact dis c h2 (List.mem_cons_of_mem _ hx)
+
+/-- What `buildTree` leaves: the empty tree, or a tree that owns its two arrays and `m` elements. -/
+theorem buildTree_spec {base L h} (m : Nat) (t : Tracks base L [] h) :
+    (m = 0 ∧ buildTree m h = (Tree.empty, h)) ∨
+    (m ≠ 0 ∧ ∃ bi bd es, (buildTree m h).1 = Tree.mk (some bi) (some bd) (reservedOf m) es m (some bi) ∧
+      Tracks base L (es ++ [bd, bi]) (buildTree m h).2 ∧ es.Nodup ∧ (∀ b ∈ es, b ≠ bi ∧ b ≠ bd ∧ b ∉ ([] : List Nat)) ∧ bi ≠ bd) := by
+  by_cases hm : m = 0
+  · left; exact ⟨hm, by simp [buildTree, hm]⟩
+  · right
+    refine ⟨hm, ?_⟩
+    obtain ⟨t1, _⟩ := t.take
+    obtain ⟨t2, hbd⟩ := t1.take
+    obtain ⟨new, e1, t3, nd, dis, _⟩ := takeN_spec m [] _ _ t2
+    simp at e1
+    refine ⟨h.take.1, h.take.2.take.1, (takeN m [] h.take.2.take.2).1, ?_, ?_, ?_, ?_, ?_⟩
+    · simp [buildTree, hm]
+    · simp only [buildTree, hm, if_false]; rw [e1]; exact t3
+    · rw [e1]; exact nd
+    · intro b hb; rw [e1] at hb
+      have := dis b hb
+      simp only [List.mem_cons, not_or] at this
+      exact ⟨this.2.1, this.1, by simp⟩
+    · intro e; apply hbd; rw [← e]; exact List.mem_cons_self ..
+
+/-- `operator=` never leaks and never frees a dead block, whatever the receiver held. -/
+theorem cotreeAssign_clean {base L h} (m : Nat) (x : List Bool) (t : Tracks base L [] h) :
+    Clean L (cotreeAssign (buildTree m h).1 x (buildTree m h).2) := by
+  -- first: after destroy() of the receiver nothing is owned
+  have t0 : Tracks base L [] (cotDestroy (buildTree m h).1 (buildTree m h).2) := by
+    rcases buildTree_spec m t with ⟨_, e⟩ | ⟨_, bi, bd, es, e1, t1, nd, hes, hne⟩
+    · rw [e]; simpa [cotDestroy, Tree.empty] using t
+    · rw [e1]
+      exact cotDestroy_full t1 nd hes (by simp) (by simp) hne (reservedOf_ne_zero _)
+  unfold cotreeAssign
+  simp only
+  generalize cotDestroy (buildTree m h).1 (buildTree m h).2 = h0 at t0
+  generalize (buildTree m h).1.cached = prev
+  split
+  · rename_i tr h1 hi
+    rcases cotInit_spec t0 hi with ⟨_, t1, htr⟩ | ⟨hf, _⟩ | ⟨hf, _⟩
+    · subst htr
+      have : cotDestroy { Tree.empty with cached := prev } h1 = h1 := by simp [cotDestroy, Tree.empty]
+      rw [this]; exact Clean.of t1 _ _
+    · cases hf
+    · cases hf
+  · rename_i tr h1 hi
+    rcases cotInit_spec t0 hi with ⟨hf, _⟩ | ⟨_, hn, htr, hh⟩ | ⟨_, hn, bi, bd, htr, t1, hbi, hbd, hne⟩
+    · cases hf
+    · subst htr hh
+      have hx : x = [] := List.length_eq_zero_iff.mp hn
+      subst hx
+      simp [copyDataFrom, cotDestroy, Tree.empty, Outcome.ofHeap]
+      exact ⟨t0.done, t0.bad⟩
+    · subst htr
+      split
+      · rename_i tr2 h2 hc
+        rcases copyDataFrom_spec t1 hbi hbd hne hc with ⟨_, htr2, t2⟩ | ⟨hf, _⟩
+        · subst htr2
+          have : cotDestroy Tree.empty h2 = h2 := by simp [cotDestroy, Tree.empty]
+          rw [this]; exact Clean.of t2 _ _
+        · cases hf
+      · rename_i tr2 h2 hc
+        rcases copyDataFrom_spec t1 hbi hbd hne hc with ⟨hf, _⟩ | ⟨_, es, htr2, t2, nd, hes⟩
+        · cases hf
+        · subst htr2
+          exact Clean.of (cotDestroy_full (r := reservedOf x.length) t2 nd hes hbi hbd hne (reservedOf_ne_zero _)) _ _
+
+/-- The iterator constructor with the handler added does not leak. -/
+theorem cotreeIterGuarded_clean {base L h} (n : Nat) (t : Tracks base L [] h) :
+    Clean L (cotreeIterGuarded n h) := by
+  unfold cotreeIterGuarded
+  split
+  · exact Clean.of t _ _
+  · rename_i hn
+    split
+    · rename_i tr h1 hi
+      rcases cotInit_spec t hi with ⟨_, t1, _⟩ | ⟨hf, _⟩ | ⟨hf, _⟩
+      · exact Clean.of t1 _ _
+      · cases hf
+      · cases hf
+    · rename_i tr h1 hi
+      rcases cotInit_spec t hi with ⟨hf, _⟩ | ⟨_, hn0, _⟩ | ⟨_, _, bi, bd, htr, t1, hbi, hbd, hne⟩
+      · cases hf
+      · exact absurd hn0 hn
+      · subst htr
+        have key : ∀ thr es h2, fillLoop n [] h1 = (thr, es, h2) →
+            Tracks base L [] (((h2.freeAll es).freeOpt (some bi)).freeOpt (some bd)) := by
+          intro thr es h2 hl
+          obtain ⟨new, e1, t2, nd, dis, _⟩ := fillLoop_spec n [] _ h1 thr es h2 t1 hl
+          simp at e1; subst e1
+          apply release_tree t2 nd _ hbi hbd hne
+          intro b hb
+          have := dis b hb
+          simp only [List.mem_cons, not_or] at this
+          exact ⟨this.2.1, this.1, this.2.2⟩
+        split
+        · rename_i es h2 hl
+          exact Clean.of (key _ _ _ hl) _ _
+        · rename_i es h2 hl
+          have := key _ _ _ hl
+          have e : cotDestroy { indexes := some bi, data := some bd, reserved := reservedOf n, elems := es, size := n, cached := some bi } h2
+              = ((h2.freeAll es).freeOpt (some bi)).freeOpt (some bd) := by
+            simp [cotDestroy, reservedOf_ne_zero]
+          simp only [e]
+          exact Clean.of this _ _
+
+/-- The iterator constructor as written is clean whenever the fill loop does not throw. -/
+theorem cotreeIter_clean_of_not_thrown {base L h} (n : Nat) (t : Tracks base L [] h)
+    (hnt : (cotreeIter n h).thrown = false) : Clean L (cotreeIter n h) := by
+  unfold cotreeIter at hnt ⊢
+  split
+  · exact Clean.of t _ _
+  · rename_i hn
+    split
+    · rename_i tr h1 hi
+      rcases cotInit_spec t hi with ⟨_, t1, _⟩ | ⟨hf, _⟩ | ⟨hf, _⟩
+      · exact Clean.of t1 _ _
+      · cases hf
+      · cases hf
+    · rename_i tr h1 hi
+      rw [if_neg hn, hi] at hnt
+      rcases cotInit_spec t hi with ⟨hf, _⟩ | ⟨_, hn0, _⟩ | ⟨_, _, bi, bd, htr, t1, hbi, hbd, hne⟩
+      · cases hf
+      · exact absurd hn0 hn
+      · subst htr
+        split
+        · rename_i es h2 hl
+          simp only [hl, Outcome.ofHeap] at hnt
+          cases hnt
+        · rename_i es h2 hl
+          obtain ⟨new, e1, t2, nd, dis, _⟩ := fillLoop_spec n [] _ h1 false es h2 t1 hl
+          simp at e1; subst e1
+          have e : cotDestroy { indexes := some bi, data := some bd, reserved := reservedOf n, elems := es, size := n, cached := some bi } h2
+              = ((h2.freeAll es).freeOpt (some bi)).freeOpt (some bd) := by
+            simp [cotDestroy, reservedOf_ne_zero]
+          simp only [e]
+          refine Clean.of (release_tree t2 nd ?_ hbi hbd hne) _ _
+          intro b hb
+          have := dis b hb
+          simp only [List.mem_cons, not_or] at this
+          exact ⟨this.2.1, this.1, this.2.2⟩
+
+/-- A fault in one of the two allocations of `init` is handled by `init` itself. -/
+theorem cotreeIter_clean_of_init_throws {base L h} (n : Nat) (t : Tracks base L [] h)
+    (hi : (cotInit none n h).1 = true) : Clean L (cotreeIter n h) := by
+  unfold cotreeIter
+  split
+  · exact Clean.of t _ _
+  · split
+    · rename_i tr h1 hi'
+      rcases cotInit_spec t hi' with ⟨_, t1, _⟩ | ⟨hf, _⟩ | ⟨hf, _⟩
+      · exact Clean.of t1 _ _
+      · cases hf
+      · cases hf
+    · rename_i tr h1 hi'
+      rw [hi'] at hi; cases hi
+
+end PPLV.Alloc
